@@ -607,3 +607,40 @@ Proof.
   apply bytes_eqb_spec in Ha, Hm, He, Henc. apply Hl in Hd, Ho.
   apply N.eqb_eq in Hs, Hst. apply Z.eqb_eq in Ht. repeat split; assumption.
 Qed.
+
+(* ---------------------------------------------------------------- the writer's layouts are accepted *)
+Fixpoint sublists (l : list N) : list (list N) :=
+  match l with
+  | [] => [[]]
+  | x :: t => map (cons x) (sublists t) ++ sublists t
+  end.
+
+Lemma is_sublist_in : forall l ss, is_sublist ss l = true -> In ss (sublists l).
+Proof.
+  induction l as [|x t IH]; intros ss H.
+  - destruct ss; [left; reflexivity|discriminate].
+  - cbn [sublists]. apply in_or_app. destruct ss as [|s ss'].
+    + right. apply IH. destruct t; reflexivity.
+    + cbn [is_sublist] in H. destruct (s =? x) eqn:E.
+      * apply N.eqb_eq in E. subst s. left. apply in_map. apply IH. exact H.
+      * right. apply IH. exact H.
+Qed.
+
+Definition layout_accepts (ss : list N) : bool :=
+  layout_ok ss && normal_sorted ss && negb (existsb spec_deflate ss).
+
+(* a finite check (the 2^14 sub-lists of the writer's fixed column list) lifted to every list *)
+Lemma writer_layouts_checked :
+  forallb (fun ss => implb (writer_specs_ok ss) (layout_accepts ss)) (sublists known_specs) = true.
+Proof. vm_compute. reflexivity. Qed.
+
+Theorem writer_layout_accepted ss :
+  writer_specs_ok ss = true ->
+  layout_ok ss = true /\ normal_sorted ss = true /\ existsb spec_deflate ss = false.
+Proof.
+  intros H. assert (Hin : In ss (sublists known_specs)).
+  { apply is_sublist_in. unfold writer_specs_ok in H. repeat rewrite andb_true_iff in H. tauto. }
+  pose proof (proj1 (forallb_forall _ _) writer_layouts_checked ss Hin) as Hc.
+  cbv beta in Hc. rewrite H in Hc. cbn [implb] in Hc. unfold layout_accepts in Hc.
+  repeat rewrite andb_true_iff in Hc. rewrite negb_true_iff in Hc. tauto.
+Qed.
